@@ -48,6 +48,10 @@ def decode(input_string):
     first_char = input_string[0]
 
     if first_char in _HYBRID36_DIGITS:
+        for char in input_string[1:]:
+            if char not in _HYBRID36_DIGITS:
+                raise ValueError(
+                    value_error_message.format(original_input_string))
         return sign * int(input_string)
     elif first_char in _HYBRID36_UPPER_CHARS:
         reference = - (10 * 36 ** (num_chars - 1) - 10 ** num_chars)
